@@ -1076,5 +1076,16 @@ func (c *CEnv) convert(v CVal, t types.Type) CVal {
 	case e.sortOf(from) == e.sortOf(t):
 		return CVal{S: v.S, T: t}
 	}
+	if _, toIface := t.Underlying().(*types.Interface); toIface {
+		if _, fromIface := from.Underlying().(*types.Interface); !fromIface {
+			// T(x) with T an interface type: box the value like ssa.MakeInterface does
+			tag := e.typeTag(from)
+			if isPointerLike(from) {
+				return CVal{S: fmt.Sprintf("(mkI %d %s)", tag, v.S), T: t}
+			}
+			box, _ := e.boxFn(from)
+			return CVal{S: fmt.Sprintf("(%s %d %s)", box, tag, v.S), T: t}
+		}
+	}
 	return c.fail("unsupported conversion %s → %s in contract", from, t)
 }
